@@ -108,12 +108,10 @@ class FileNameGrouper(AbstractReadGrouper):
 
 def get_file_grouping_properties(values):
     assert len(values) >= 2
-    if len(values) > 4:
-        return values[1], int(values[2]), int(values[3]), values[4]
-    elif len(values) > 3:
-        return values[1], int(values[2]), int(values[3]), "\t"
-    else:
-        return values[1], 0, 1, "\t"
+    read_id_column_index = int(values[2]) if len(values) > 2 else 0
+    group_id_column_index = int(values[3]) if len(values) > 3 else 1
+    delim = values[4] if len(values) > 4 else "\t"
+    return values[1], read_id_column_index, group_id_column_index, delim
 
 
 def prepare_read_groups(args, sample):
